@@ -20,6 +20,7 @@ type c05Shape struct {
 	status    bool
 	included  bool   // the task is defined in an included Taskfile (same directory) and called as inc:build
 	gen2      bool   // a second generates entry (out2.txt)
+	genInSrc  bool   // the generated file lies among the matched sources (src/bundle.txt)
 	genOnce   bool   // the command writes the generated file only when it is missing (its mtime is not refreshed)
 	depGen    bool   // a dependency (re)generates one of the matched sources from seed.txt
 	excl      string // where the exclude entry sits: "after" (documented use) | "before" (excluded files are re-included by the later pattern)
@@ -39,6 +40,9 @@ func (sh c05Shape) taskfile() string {
 			s += "    generates: ['out.txt']\n"
 		}
 	}
+	if sh.genInSrc {
+		s += "    generates: ['src/bundle.txt']\n"
+	}
 	if sh.depGen {
 		s += "    deps: [gen]\n"
 	}
@@ -46,6 +50,9 @@ func (sh c05Shape) taskfile() string {
 		s += "    status: ['test -f ok.flag']\n"
 	}
 	s += "    cmds:\n      - 'echo run >> trace.log'\n"
+	if sh.genInSrc {
+		s += "      - 'echo bundled > src/bundle.txt'\n"
+	}
 	if sh.generates && sh.genOnce {
 		s += "      - 'test -f out.txt || echo built > out.txt'\n"
 	} else if sh.generates {
@@ -232,6 +239,7 @@ func c05Events(sh c05Shape) []hEvent {
 					}
 				}
 			}
+			fpBefore := refFingerprint(dir, sh)
 			_, se, rc := RunCLI(dir, nil, "", args...)
 			ran := len(traceOf(dir)) > n0
 			forced := name == "force"
@@ -244,6 +252,9 @@ func c05Events(sh c05Shape) []hEvent {
 			// (evaluated after the invocation: a dependency may regenerate a source first; the task's
 			// own commands never touch its sources)
 			cur := refFingerprint(dir, sh)
+			if sh.genInSrc {
+				cur = fpBefore // here the task's own command rewrites a matched file: what counts is the state it found
+			}
 			change := fpChange(m.Fp, cur, sh.method)
 			expect := !m.EverOK || change != "" || forced || statusFailing || genMissing
 			tag := sh.method
@@ -305,6 +316,9 @@ func c05Units(tier string) []*Unit {
 			c05Shape{name: "two-generates", method: m, generates: true, gen2: true, excl: "after"},
 		)
 	}
+	// (timestamp only: with checksum the first run legitimately records a fingerprint without the
+	// file it is about to generate, so the second run executes once more)
+	shapes = append(shapes, c05Shape{name: "generated-file-is-also-a-source", method: "timestamp", genInSrc: true, excl: "after"})
 	var us []*Unit
 	for _, m := range []string{"checksum", "timestamp"} {
 		d := 4
